@@ -157,14 +157,15 @@ const K_SETPGID: usize = 7;
 const K_EXEC: usize = 8;
 const K_SIGMASK: usize = 9;
 const K_SIGNAL: usize = 10;
-const NKINDS: usize = 11;
+const K_DUPFD: usize = 11;
+const NKINDS: usize = 12;
 const KIND_NAMES: [&str; NKINDS] =
-    ["pipe", "fcntl", "fork", "dup2", "chdir", "setuid", "setgid", "setpgid", "exec", "sigmask", "signal"];
+    ["pipe", "fcntl", "fork", "dup2", "chdir", "setuid", "setgid", "setpgid", "exec", "sigmask", "signal", "dupfd"];
 
 static COUNT: [AtomicUsize; NKINDS] = [
     AtomicUsize::new(0), AtomicUsize::new(0), AtomicUsize::new(0), AtomicUsize::new(0), AtomicUsize::new(0),
     AtomicUsize::new(0), AtomicUsize::new(0), AtomicUsize::new(0), AtomicUsize::new(0), AtomicUsize::new(0),
-    AtomicUsize::new(0),
+    AtomicUsize::new(0), AtomicUsize::new(0),
 ];
 // (kind, nth (1-based), errno, in_child)
 static mut FAULTS: [(usize, usize, i32, bool); 8] = [(usize::MAX, 0, 0, false); 8];
@@ -292,6 +293,17 @@ pub unsafe extern "C" fn pipe2(fds: *mut i32, flags: i32) -> i32 {
 
 #[no_mangle]
 pub unsafe extern "C" fn fcntl(fd: i32, cmd: i32, arg: libc::c_long) -> i32 {
+    // duplicating a descriptor (File::try_clone) is a descriptor allocation: it can fail with EMFILE
+    if (cmd == libc::F_DUPFD || cmd == libc::F_DUPFD_CLOEXEC) && logging() && fd < 900 {
+        if let Some(e) = fault(K_DUPFD) {
+            let r = fail(e);
+            let mut b = Buf::new();
+            b.s("dupfd ");
+            b.num(fd as i64);
+            b.end(r);
+            return r as i32;
+        }
+    }
     let watched = cmd == libc::F_GETFD || cmd == libc::F_SETFD;
     if watched && logging() && fd < 900 {
         if let Some(e) = fault(K_FCNTL) {
@@ -1086,6 +1098,14 @@ fn apply_builder_op(e: Exec, op: &str, idx: usize, wd: &str) -> Exec {
         }
     };
     match name {
+        "setuid" => {
+            use subprocess::ExecExt;
+            e.setuid(arg.parse().unwrap())
+        }
+        "setgid" => {
+            use subprocess::ExecExt;
+            e.setgid(arg.parse().unwrap())
+        }
         "arg" => e.arg(os(arg)),
         "args" => {
             let v: Vec<OsString> = if arg == "none" { vec![] } else { arg.split(',').map(os).collect() };
